@@ -6,7 +6,7 @@ RULE = ("TLC enumerates 12 grouping key lists (6 keys, 6 pairs) x 5 aggregate li
         "each integer-valued aggregate x asc/desc over world W7; one run each; Judge_C08 checks the bijection between rows and "
         "distinct key tuples of the matching entries, every cell against Agg!AggOk on exactly that group, and the row order. "
         "Non-trivial = at least two groups and some group with more than one entry. "
-        "The same scenarios are run over pseudo-random trees (WorldRnd; quick: 1500 sampled over 2 trees, thorough: 6 trees); ORDER BY lists of two fields and grouping keys that are not selected are included.")
+        "The same scenarios are run over pseudo-random trees (WorldRnd; quick: 800 sampled over 2 trees, thorough: 6 trees); ORDER BY lists of two fields and grouping keys that are not selected are included.")
 ASSUMPTIONS = ["lstat values as ground truth", "keys are always selected (ORDER BY on unselected keys is left open)"]
 POOL = 8
 
@@ -22,9 +22,9 @@ def conformance(tier, seed):
 
 
 def generators(tier, seed):
-    # the fixed world W7, then pseudo-random trees (quick: 1500 sampled scenarios over 2 trees, thorough: 6 trees)
+    # the fixed world W7, then pseudo-random trees (quick: 800 sampled scenarios over 2 trees, thorough: 6 trees)
     if tier == "quick":
-        return [dict(module="MC_C08", workers=2), dict(module="MC_C08", cfg="MC_C08_r", workers=2, limit=1500)]
+        return [dict(module="MC_C08", workers=2), dict(module="MC_C08", cfg="MC_C08_r", workers=2, limit=800)]
     return [dict(module="MC_C08", workers=4), dict(module="MC_C08", cfg="MC_C08_rt", workers=4)]
 
 MANIFEST = dict(
